@@ -17,6 +17,8 @@ package jobs
 //	res, p := h.runJob(jobs[0])        job.Run() on the calling goroutine; p = recovered panic value (nil = none),
 //	                                   res = the stored jobResult of that job id afterwards (nil = none stored)
 //	h.result(id), h.syncState(id)      stored jobResult / SyncJobState (continuation token)
+//	h.takeLogs()                       with vjOpts{CaptureLog:"x|"}: log messages starting with "x|" emitted
+//	                                   since the last call (a JS transform's Log("x|..."), any goroutine)
 //	vjJS(code)                         base64 of a JS transform source
 //	vjJobJSON(vjJob{...})              renders a job configuration as JSON (see vjJob)
 //
@@ -35,10 +37,12 @@ import (
 	"fmt"
 	"os"
 	"path/filepath"
+	"strings"
 	"sync"
 
 	"github.com/DataDog/datadog-go/v5/statsd"
 	"go.uber.org/zap"
+	"go.uber.org/zap/zapcore"
 
 	"github.com/mimiro-io/datahub/internal/conf"
 	"github.com/mimiro-io/datahub/internal/security"
@@ -52,6 +56,10 @@ type vjOpts struct {
 	Bus      bool // real event bus (server.NewBus): onchange triggers fire on sink writes
 	PoolIncr int  // 0 = 10
 	PoolFull int  // 0 = 5
+	// CaptureLog != "": the hub's logger keeps every message (any level >= info)
+	// that starts with this prefix; read and clear them with takeLogs(). All
+	// other log output is discarded. A JS transform reaches it with Log("<prefix>...").
+	CaptureLog string
 }
 
 type vjHub struct {
@@ -63,6 +71,42 @@ type vjHub struct {
 	Sched  *Scheduler
 	Bus    server.EventBus
 	P      []string // store prefixes of kit.PoolNS
+	logs   *vjLogCore
+}
+
+// vjLogCore is a zap core that keeps messages with a given prefix.
+type vjLogCore struct {
+	mu     sync.Mutex
+	prefix string
+	msgs   []string
+}
+
+func (c *vjLogCore) Enabled(l zapcore.Level) bool      { return l >= zapcore.InfoLevel }
+func (c *vjLogCore) With([]zapcore.Field) zapcore.Core { return c }
+func (c *vjLogCore) Sync() error                       { return nil }
+func (c *vjLogCore) Check(e zapcore.Entry, ce *zapcore.CheckedEntry) *zapcore.CheckedEntry {
+	if c.Enabled(e.Level) && strings.HasPrefix(e.Message, c.prefix) {
+		return ce.AddCore(e, c)
+	}
+	return ce
+}
+func (c *vjLogCore) Write(e zapcore.Entry, _ []zapcore.Field) error {
+	c.mu.Lock()
+	c.msgs = append(c.msgs, e.Message)
+	c.mu.Unlock()
+	return nil
+}
+
+// takeLogs returns and clears the captured log messages (see vjOpts.CaptureLog).
+func (h *vjHub) takeLogs() []string {
+	if h.logs == nil {
+		return nil
+	}
+	h.logs.mu.Lock()
+	defer h.logs.mu.Unlock()
+	out := h.logs.msgs
+	h.logs.msgs = nil
+	return out
 }
 
 var vjStdoutMu sync.Mutex
@@ -96,6 +140,10 @@ func newVJHub(o vjOpts) *vjHub {
 	}
 	h := &vjHub{Dir: kit.NewDir("vj")}
 	lg := zap.NewNop().Sugar()
+	if o.CaptureLog != "" {
+		h.logs = &vjLogCore{prefix: o.CaptureLog}
+		lg = zap.New(h.logs).Sugar()
+	}
 	h.Env = &conf.Config{
 		Logger:        lg,
 		StoreLocation: filepath.Join(h.Dir, "store"),
